@@ -1,4 +1,132 @@
 package main
 
-// mutantReplay is filled in later (thorough tier): applies each seeded patch to a scratch copy and re-runs the rules.
-func mutantReplay(id, repo, verif string, r *Result, extra map[string]interface{}) {}
+import (
+	"encoding/json"
+	"fmt"
+	"os"
+	"os/exec"
+	"path/filepath"
+	"sort"
+	"strings"
+)
+
+// seedMeta is /verif/seeded/<id>/meta.json (the part the replay needs).
+type seedMeta struct {
+	ID         string `json:"id"`
+	Property   string `json:"property"`
+	DetectedBy []struct {
+		Property string `json:"property"`
+		Rule     string `json:"rule"`
+	} `json:"detected_by"`
+}
+
+// mutantReplay (thorough tier): every seeded change recorded as detected by this property is applied to a scratch
+// copy of the CURRENT /repo working tree (outside /repo and /verif, removed right afterwards, one at a time, each
+// analysed by a child process) and the named rule must report a violation there. A change that no longer applies is
+// reported as skipped; a surviving change makes the run BROKEN. Only source is analysed, nothing is executed.
+func mutantReplay(prop, repo, verif string, r *Result, extra map[string]interface{}) {
+	dirs, _ := filepath.Glob(filepath.Join(verif, "seeded", "*", "meta.json"))
+	sort.Strings(dirs)
+	type outcome struct {
+		Seed   string `json:"seed"`
+		Rule   string `json:"expected_rule"`
+		Result string `json:"result"`
+		Detail string `json:"detail,omitempty"`
+	}
+	var outs []outcome
+	self, err := os.Executable()
+	if err != nil {
+		self = os.Args[0]
+	}
+	for _, mf := range dirs {
+		var m seedMeta
+		b, err := os.ReadFile(mf)
+		if err != nil || json.Unmarshal(b, &m) != nil {
+			continue
+		}
+		var rules []string
+		for _, d := range m.DetectedBy {
+			if d.Property == prop {
+				rules = append(rules, d.Rule)
+			}
+		}
+		if len(rules) == 0 {
+			continue
+		}
+		seedDir := filepath.Dir(mf)
+		o := outcome{Seed: filepath.Base(seedDir), Rule: strings.Join(rules, ",")}
+		func() {
+			scratch, err := os.MkdirTemp("", "kbverif.")
+			if err != nil {
+				o.Result, o.Detail = "error", err.Error()
+				return
+			}
+			defer os.RemoveAll(scratch)
+			if out, err := exec.Command("rsync", "-a", "--exclude", ".git", repo+"/", filepath.Join(scratch, "repo")+"/").CombinedOutput(); err != nil {
+				o.Result, o.Detail = "error", "copy: "+string(out)
+				return
+			}
+			os.MkdirAll(filepath.Join(scratch, "verif"), 0o755)
+			if kf, err := os.ReadFile(filepath.Join(verif, "known_findings.json")); err == nil {
+				os.WriteFile(filepath.Join(scratch, "verif", "known_findings.json"), kf, 0o644)
+			}
+			pc := exec.Command("patch", "-p1", "--no-backup-if-mismatch", "-s", "-i", filepath.Join(seedDir, "patch.diff"))
+			pc.Dir = filepath.Join(scratch, "repo")
+			if out, err := pc.CombinedOutput(); err != nil {
+				o.Result, o.Detail = "skipped", "patch no longer applies to the current tree: "+firstLine(string(out))
+				return
+			}
+			cc := exec.Command(self, "-prop", prop, "-tier", "quick", "-repo", filepath.Join(scratch, "repo"), "-verif", filepath.Join(scratch, "verif"), "-no-mutants")
+			cc.Env = os.Environ()
+			out, _ := cc.CombinedOutput()
+			code := cc.ProcessState.ExitCode()
+			hit := ""
+			for _, ln := range strings.Split(string(out), "\n") {
+				if !strings.HasPrefix(ln, "violated: ") {
+					continue
+				}
+				for _, ru := range rules {
+					if strings.Contains(ln, "rule="+ru+" ") {
+						hit = ln
+					}
+				}
+			}
+			switch {
+			case code == 1 && hit != "":
+				o.Result = "detected"
+				if len(hit) > 220 {
+					hit = hit[:220]
+				}
+				o.Detail = hit
+			case code == 1:
+				o.Result, o.Detail = "detected-by-other-rule", "a violation was reported, but not by "+o.Rule
+			default:
+				o.Result, o.Detail = "survived", fmt.Sprintf("child exit %d without a violation of %s", code, o.Rule)
+			}
+		}()
+		outs = append(outs, o)
+		fmt.Printf("  mutant replay %s (expects %s): %s\n", o.Seed, o.Rule, o.Result)
+		if o.Result == "survived" || o.Result == "error" {
+			r.und(prop+"-replay", "seeded change "+o.Seed, "-", "the seeded change recorded as detected by "+o.Rule+" is no longer reported: "+o.Detail)
+		}
+	}
+	extra["mutant_replay"] = outs
+	n := 0
+	for _, o := range outs {
+		if o.Result == "detected" || o.Result == "detected-by-other-rule" {
+			n++
+		}
+	}
+	extra["mutants_replayed"] = len(outs)
+	extra["mutants_detected"] = n
+	if len(outs) > 0 {
+		r.Controls = append(r.Controls, fmt.Sprintf("seeded-change replay on scratch copies of the current tree: %d replayed, %d detected", len(outs), n))
+	}
+}
+
+func firstLine(s string) string {
+	if i := strings.Index(s, "\n"); i >= 0 {
+		return s[:i]
+	}
+	return s
+}
